@@ -44,7 +44,14 @@ def mkRequest (sw : Bytes) (method : String) (path : List String) (secrets : Lis
 def immPath (si : String) (rest : List String) : List String := ["storage", "v1", "immutable", si] ++ rest
 def mutPath (si : String) (rest : List String) : List String := ["storage", "v1", "mutable", si] ++ rest
 
-/-- the request an operation sends; `none` = the client raises before sending anything -/
+/-- the request a read sends, per `clientReadPlan`; `none` = nothing is sent (`opLocal` says what happens instead) -/
+def readRequest (sw : Bytes) (path : List String) (off len : Nat) : Option Request :=
+  match clientReadPlan zeroRead off len with
+  | .send h _ => some (mkRequest sw "GET" path [] (.range (some h)))
+  | .raise => none
+  | .localEmpty => none
+
+/-- the request an operation sends; `none` = nothing is sent (the client raises, or answers locally: `opLocal`) -/
 def opRequest (sw : Bytes) : Op → Option Request
   | .create si ns size u r c =>
     some (mkRequest sw "POST" (immPath si []) [(.leaseRenew, r), (.leaseCancel, c), (.upload, u)] (.allocate ns size))
@@ -52,10 +59,8 @@ def opRequest (sw : Bytes) : Op → Option Request
     (clientContentRange off d).map fun cr =>
       mkRequest sw "PATCH" (immPath si [toString n]) [(.upload, u)] (.write (some cr) d)
   | .abort si n u => some (mkRequest sw "PUT" (immPath si [toString n, "abort"]) [(.upload, u)] .none)
-  | .read si n off len =>
-    (clientRangeHdr off len).map fun h => mkRequest sw "GET" (immPath si [toString n]) [] (.range (some h))
-  | .mread si n off len =>
-    (clientRangeHdr off len).map fun h => mkRequest sw "GET" (mutPath si [toString n]) [] (.range (some h))
+  | .read si n off len => readRequest sw (immPath si [toString n]) off len
+  | .mread si n off len => readRequest sw (mutPath si [toString n]) off len
   | .list si => some (mkRequest sw "GET" (immPath si ["shares"]) [] .none)
   | .mlist si => some (mkRequest sw "GET" (mutPath si ["shares"]) [] .none)
   | .lease si r c => some (mkRequest sw "PUT" ["storage", "v1", "lease", si] [(.leaseRenew, r), (.leaseCancel, c)] .none)
@@ -72,6 +77,15 @@ def requestedLength : Op → Nat
   | .mread _ _ _ len => len
   | _ => 0
 
+/-- the number of bytes actually asked for (1 for the probe of a zero-length read) -/
+def sentLength (op : Op) : Nat := max (requestedLength op) 1
+
+/-- the result when nothing was sent -/
+def opLocal : Op → Res
+  | .read _ _ off len => if clientReadPlan zeroRead off len = .localEmpty then .data [] else .clientError
+  | .mread _ _ off len => if clientReadPlan zeroRead off len = .localEmpty then .data [] else .clientError
+  | _ => .clientError
+
 /-- how each client method turns the response into its result -/
 def opResult (op : Op) (r : Response) : Res :=
   match op, r.status, r.body with
@@ -81,8 +95,8 @@ def opResult (op : Op) (r : Response) : Res :=
   | .abort .., 200, _ => .done
   | .read .., 204, _ => .data []
   | .mread .., 204, _ => .data []
-  | .read .., 206, .share b => if b.length > requestedLength op then .clientError else .data b
-  | .mread .., 206, .share b => if b.length > requestedLength op then .clientError else .data b
+  | .read .., 206, .share b => if b.length > sentLength op then .clientError else .data (b.take (requestedLength op))
+  | .mread .., 206, .share b => if b.length > sentLength op then .clientError else .data (b.take (requestedLength op))
   | .list .., 200, .shares l => .shares l
   | .mlist .., 200, .shares l => .shares l
   | .lease .., 204, _ => .done
@@ -95,7 +109,7 @@ def opResult (op : Op) (r : Response) : Res :=
 /-- one client operation against the server -/
 def clientStep (sw : Bytes) (st : State) (op : Op) : State × Res :=
   match opRequest sw op with
-  | none => (st, .clientError)
+  | none => (st, opLocal op)
   | some rq =>
     let r := step sw st rq
     (r.1, opResult op r.2)
